@@ -3,10 +3,12 @@
 to /verif/seeded/<prop>-<n>/ with meta.json."""
 import sys, os, shutil, json, subprocess
 prop, n, summary, needs = sys.argv[1:5]
-src = '/tmp/seed-out/%s' % prop
+srcroot = os.environ.get('SEED_OUT', '/tmp/seed-out')
+srcn = os.environ.get('SRC_N', n)
+src = '%s/%s' % (srcroot, prop)
 dst = '/verif/seeded/%s-%s' % (prop, n)
 os.makedirs(dst, exist_ok=True)
-shutil.copy(os.path.join(src, 'patch%s.diff' % n), os.path.join(dst, 'patch.diff'))
+shutil.copy(os.path.join(src, 'patch%s.diff' % srcn), os.path.join(dst, 'patch.diff'))
 if os.path.isdir(os.path.join(src, 'demo')):
     if os.path.isdir(os.path.join(dst, 'demo')):
         shutil.rmtree(os.path.join(dst, 'demo'))
